@@ -46,14 +46,34 @@ def gen(rng, tier):
     elif order == 'interleaved':
         ids.sort()
         ids = ids[::2] + ids[1::2]
+    if rng.random() < 0.04:
+        # large tables with "round" slab sizes: ids increasing inside each slab, slabs in decreasing or rotated order
+        nslab = rng.randrange(2, 4)
+        counts = [rng.choice([1024, 2048, 4096, 4096, 8192]) for _ in range(nslab)]
+        total = sum(counts)
+        base = sorted(rng.sample(range(1, 4 * total), total))
+        blocks, k0 = [], 0
+        for n in counts:
+            blocks.append(base[k0:k0 + n])
+            k0 += n
+        order = rng.choice(['decreasing', 'rotated'])
+        blocks = blocks[::-1] if order == 'decreasing' else blocks[1:] + blocks[:1]
+        counts = [len(b) for b in blocks]
+        ids = [i for b in blocks for i in b]
+        big = True
+    else:
+        big = False
     slabs, k = [], 0
     for n in counts:
         sl = ids[k:k + n]
         if order in ('increasing', 'interleaved'):
             pass
         k += n
-        slabs.append({'ids': sl, 'parts': [[i, rng.randrange(0, 5)] for i in rng.sample(sl, len(sl))]})
-    n_chunks = rng.choice([1, 1, 1, 2, nslab])
+        if big:
+            slabs.append({'ids': sl, 'parts': [[i, 1] for i in rng.sample(sl, 5)]})
+        else:
+            slabs.append({'ids': sl, 'parts': [[i, rng.randrange(0, 5)] for i in rng.sample(sl, len(sl))]})
+    n_chunks = 1 if big else rng.choice([1, 1, 1, 2, nslab])
     chunk = -1
     if n_chunks > 1:
         nj = -(-nslab // n_chunks)
